@@ -57,8 +57,13 @@ def const_or_name(v: Any) -> Sym:
         t: Sym = ("n", parts[0])
         for p_ in parts[1:]:
             t = ("a", t, p_)
+        FUNCTION_REFS.add(t)
         return t
     return C(v)
+
+
+# name terms that came out of a folded table as references to functions / classes (never None)
+FUNCTION_REFS: set = set()
 
 
 def C(v: Any) -> Sym:
@@ -339,6 +344,44 @@ _CANON_CMP = {
 }
 
 
+_NOT_NONE_CALLS = {"bool", "isinstance", "issubclass", "len", "int", "str", "bytes", "float", "hasattr", "callable", "repr", "list", "dict", "tuple", "set",
+                   "frozenset", "abs", "divmod", "sorted", "bytearray", "any", "all"}
+
+
+# filled by the interpreter from the module under analysis (return annotations `-> bool|int|str|bytes|float`)
+NON_OPTIONAL_RETURNS: set = set()
+# attributes that always hold a value of a plain type
+NON_NONE_ATTRS = {"_serialized_on_wire", "_unknown_fields"}
+
+
+def never_none(s: Sym) -> bool:
+    """the term cannot evaluate to None: comparisons, boolean tests, constructor-like builtins, non-None constants, and
+    and/or over such terms (`a and b` / `a or b` return one of their operands)"""
+    if s[0] == "c":
+        return s[1] is not None
+    if s[0] == "op":
+        if s[1] in ("==", "<", "is", "in", "not", "truth", "+", "-", "*", "|", "&", "^", "<<", ">>", "neg", "~"):
+            return True
+        if s[1] in ("and", "or"):
+            return all(never_none(x) for x in s[2:])
+        return False
+    if s[0] == "call":
+        if s[1][0] == "n" and s[1][1] in _NOT_NONE_CALLS:
+            return True
+        # functions / methods of the analysed module that are annotated to return a plain scalar type
+        base = s[1][1] if s[1][0] == "n" else (s[1][2] if s[1][0] == "a" else None)
+        return base in NON_OPTIONAL_RETURNS
+    if s[0] == "a" and s[2] in NON_NONE_ATTRS:
+        return True
+    if s in FUNCTION_REFS:
+        return True
+    if s[0] in ("tuple", "list", "set", "dictd", "fstr"):
+        return True
+    if s[0] == "ife":
+        return never_none(s[2]) and never_none(s[3])
+    return False
+
+
 def simplify(s: Sym) -> Sym:
     k = s[0]
     if k == "op":
@@ -393,6 +436,8 @@ def simplify(s: Sym) -> Sym:
             a, b = xs
             if a[0] == "c" and b[0] != "c":
                 return OP("is", b, a)
+            if b == ("c", None) and never_none(a):
+                return ("c", False)
         if op == "in" and len(xs) == 2:
             a, b = xs
             # x in (single,)  ==  x == single   (for hashable scalar constants)
